@@ -1,6 +1,7 @@
 #!/bin/sh
 # run every registered quick check sequentially; summary on stdout (developer convenience, not a registered command)
 cd "$(dirname "$0")/.." || exit 2
+mkdir -p work
 for p in "$@"; do
   s=$(date +%s)
   ./check $p --tier ${TIER:-quick} > work/runall-$p.log 2>&1
